@@ -477,6 +477,35 @@ fn run_pan(sc: &Value, tr: &mut Tracer) {
 	}
 }
 
+/// the time a clock's handle reports: a clock running at (1 - 2^-k) ticks per buffer is read after one buffer - the fraction
+/// must be that number (it is exact in f64) and in any case below 1
+fn run_clkread(sc: &Value, tr: &mut Tracer) {
+	use kv::scene::{Sim, NF, RATE};
+	tr.reset(json!({"kind": "clkread"}));
+	for c in sc["cases"].as_array().unwrap() {
+		let k = c["k"].as_i64().unwrap();
+		let per_buffer = 1.0 - 2f64.powi(-(k as i32));
+		let mut e = json!({"a": "clkread", "k": k, "p": false, "ticks": -1, "below1": false, "exact": false});
+		match guarded(|| {
+			let mut sim = Sim::basic();
+			let mut clock = sim.manager.add_clock(ClockSpeed::TicksPerSecond(per_buffer * RATE as f64 / NF as f64)).unwrap();
+			clock.start();
+			// the time after one buffer is published at the start of the second callback
+			let _ = sim.callback(NF);
+			let _ = sim.callback(NF);
+			clock.time()
+		}) {
+			Ok(t) => {
+				e["ticks"] = json!(t.ticks.min(1 << 20));
+				e["below1"] = json!(t.fraction >= 0.0 && t.fraction < 1.0);
+				e["exact"] = json!(t.ticks == 0 && t.fraction == per_buffer);
+			}
+			Err(_) => e["p"] = json!(true),
+		}
+		tr.ev(e);
+	}
+}
+
 fn main() {
 	let args: Vec<String> = std::env::args().collect();
 	let args = &args[1..];
@@ -505,6 +534,7 @@ fn main() {
 			"semi" => run_semi(&sc, &mut tr),
 			"db" => run_db(&sc, &mut tr),
 			"pan" => run_pan(&sc, &mut tr),
+			"clkread" => run_clkread(&sc, &mut tr),
 			k => panic!("unknown scenario kind {k}"),
 		}
 	}
